@@ -125,7 +125,7 @@ def missingOperand (st : St) (toks : List String) : Bool :=
   match toks with
   | [] => false
   | op :: args =>
-    if op == "new" || op == "cfg" || op == "emp" || op == "tables" || op == "matrix" || op == "end" || op == "failat" || op == "failoff" then false else
+    if op == "new" || op == "newdef" || op == "cfg" || op == "emp" || op == "tables" || op == "matrix" || op == "end" || op == "failat" || op == "failoff" then false else
     (List.zip (List.range args.length) args).any (fun (a, t) =>
       if t.length == 2 && t.startsWith "v" then
         let isTarget := (op == "copy" || op == "move") && a == 1
@@ -153,7 +153,7 @@ def step (st : St) (line : String) : St × List String :=
   | ["matrix"] =>
     let showOp (o : Op) : String := ((toString (repr o)).splitOn ".").getLast!
     let showCat : Cat → String | .plain => "Plain" | .fixed => "Fixed" | .varying => "Varying" | .mixed => "Mixed"
-    let showVal : ValCat → String | .trivial => "Trivial" | .copyable => "Copyable" | .moveOnly => "MoveOnly"
+    let showVal : ValCat → String | .trivial => "Trivial" | .integral => "Integral" | .copyable => "Copyable" | .moveOnly => "MoveOnly"
     (st, requiredCells.map (fun (o, c, v) => s!"cell {showOp o} {showCat c} {showVal v}"))
   | ["tables"] => (st, [tablesLine st.ps])
   | ["failat", k] => ({ st with w := { w with heap := { w.heap with fail := some k.toNat! } } }, ["ok"])
@@ -164,6 +164,10 @@ def step (st : St) (line : String) : St × List String :=
     let es := elemSize st.ps fs
     let w' := w.new k st.ps fs cap.toNat! (ctorBytes st.ps bytes.toNat!) alloc.toNat!
     fin w' [s!"esz={es.size}/{es.stride}", dumpVec k (w'.vecs k)]
+  | ["newdef", v] =>
+    let k := vidx v
+    let w' := w.newDefault k st.ps
+    fin w' [dumpVec k (w'.vecs k)]
   | ["emplace", v, vals] =>
     let k := vidx v
     let w' := w.upd k (·.emplaceBack (parseElem vals))
